@@ -43,6 +43,8 @@ type dsData struct {
 	i     []int
 	u     []uint
 	gotype reflect.Type
+	text   []byte
+	width  int
 }
 
 type fileData struct {
@@ -91,7 +93,10 @@ type Dataspace struct {
 	selected                     bool
 	offset, stride, count, block []uint
 }
-type Datatype struct{ t reflect.Type }
+type Datatype struct {
+	t    reflect.Type
+	size uint
+}
 type PropList struct{}
 
 func OpenFile(name string, flags int) (*File, error) {
@@ -249,11 +254,11 @@ func NewDataTypeFromType(t reflect.Type) (*Datatype, error) {
 	if fail("NewDataTypeFromType") {
 		return nil, errors.New("no matching datatype")
 	}
-	return &Datatype{t}, nil
+	return &Datatype{t, 8}, nil
 }
 func (t *Datatype) Close() error         { return nil }
 func (t *Datatype) GoType() reflect.Type { return t.t }
-func (t *Datatype) Size() uint           { return 8 }
+func (t *Datatype) Size() uint           { return t.size }
 
 func NewPropList(cls int) (*PropList, error) {
 	if fail("NewPropList") {
@@ -329,11 +334,55 @@ func (s *Dataspace) selection() []int {
 	return out
 }
 
+// PutText installs a fixed-width text dataset (environment set-up for harnesses).
+func PutText(file, path string, vals []string, width int) {
+	f, ok := Files[file]
+	if !ok {
+		f = &fileData{name: file, datasets: map[string]*dsData{}, groups: map[string]bool{"/": true}}
+		Files[file] = f
+	}
+	d := &dsData{shape: []uint{uint(len(vals))}, kind: "text", width: width, gotype: reflect.TypeOf("")}
+	d.text = make([]byte, len(vals)*width)
+	for i, v := range vals {
+		copy(d.text[i*width:(i+1)*width], v)
+	}
+	p := norm(path)
+	f.datasets[p] = d
+	f.order = append(f.order, p)
+	for g := parent(p); ; g = parent(g) {
+		f.groups[g] = true
+		if g == "/" {
+			break
+		}
+	}
+}
+
+// MakeGroup creates an (empty) group and its ancestors.
+func MakeGroup(file, path string) {
+	f, ok := Files[file]
+	if !ok {
+		f = &fileData{name: file, datasets: map[string]*dsData{}, groups: map[string]bool{"/": true}}
+		Files[file] = f
+	}
+	for g := norm(path); ; g = parent(g) {
+		f.groups[g] = true
+		if g == "/" {
+			break
+		}
+	}
+}
+
 func (d *Dataset) Close() error { return nil }
 func (d *Dataset) Space() *Dataspace {
 	return &Dataspace{dims: append([]uint{}, d.d.shape...)}
 }
-func (d *Dataset) Datatype() (*Datatype, error) { return &Datatype{d.d.gotype}, nil }
+func (d *Dataset) Datatype() (*Datatype, error) {
+	sz := uint(8)
+	if d.d.kind == "text" {
+		sz = uint(d.d.width)
+	}
+	return &Datatype{d.d.gotype, sz}, nil
+}
 
 func (d *Dataset) alloc(kind string) {
 	if d.d.kind == kind {
@@ -438,7 +487,9 @@ func (d *Dataset) transfer(data interface{}, sel []int, write bool) error {
 			}
 		}
 	case *[]byte:
-		// text datasets are not modelled
+		if !write && d.d.kind == "text" {
+			copy(*p, d.d.text)
+		}
 	default:
 		return errors.New("unsupported buffer type")
 	}
